@@ -93,7 +93,20 @@ func hostile(r *hx.Rand, kind int) []byte {
 		return b
 	}
 	ft := byte(r.Intn(64))
-	switch kind % 20 {
+	// the caller draws kind from 0..15 only: draw the full range here (kinds 16.. were never produced before)
+	kind = r.Intn(24)
+	switch kind {
+	case 19: // FU start whose RECONSTRUCTED NAL unit begins with a start code: payload header 62 00 (type 49, layer 0,
+		// TID 0), FU header 80 (type 0) => header bytes 00 00, then 01 ...: splitNALUs sees 00 00 01 at offset 0
+		return append([]byte{0x62, 0x00, 0x80, 0x01}, zeros()...)
+	case 20: // ... with a 4-byte start code at offset 0: 00 00 | 00 01
+		return append([]byte{0x62, 0x00, 0x80, 0x00, 0x01}, small()...)
+	case 21: // ... followed by nothing but start-code material
+		return append([]byte{0x62, 0x00, 0x80}, zeros()...)
+	case 22: // FU end that may complete such a unit
+		return append([]byte{0x62, 0x00, 0x40}, zeros()...)
+	case 23: // both in one: start and end set, unit = 00 00 01 ...
+		return append([]byte{0x62, 0x00, 0xC0, 0x01}, small()...)
 	case 0: // FU start
 		return append([]byte{h0(49), h1, 0x80 | ft}, small()...)
 	case 1: // FU middle
